@@ -21,6 +21,7 @@ RULE = (
     "validity of every kcut (size <= k, separates n from all sources). Non-trivial: graph has a node "
     "with fan-out >= 2 and a node with fan-in >= 2. Distinct by digest."
 )
+RULE += ' Added after seeded-change rounds 4-5: cyclic circuits must be rejected by the depth functions for maximum=True and maximum=False alike.'
 ASSUMPTIONS = [
     "levelize only on circuits whose sources are inputs/constants (it defines level 0 only for those)",
     "kcuts bounded to <= 9 nodes with fan-in <= 3 (enumeration cost), validity only (no completeness claim)",
